@@ -53,7 +53,7 @@ def universe():
                 "post": {
                     "operationId": "createUser",
                     "tags": ["users"],
-                    "requestBody": copy.deepcopy(body),
+                    "requestBody": {"$ref": "#/components/requestBodies/UserBody"},
                     "responses": {
                         "201": {
                             "description": "c",
@@ -68,13 +68,15 @@ def universe():
             },
             "/users/{id}": {
                 "get": {"parameters": [docs.int_param("id", "path")], "responses": copy.deepcopy(ok)},
-                "delete": {"operationId": "deleteUser", "deprecated": True, "tags": ["admin"], "parameters": [docs.int_param("id", "path")], "responses": copy.deepcopy(ok)},
+                "delete": {"operationId": "deleteUser", "deprecated": True, "tags": ["admin"], "parameters": [{"$ref": "#/components/parameters/AdminId"}], "responses": copy.deepcopy(ok)},
             },
             "/orders": {"$ref": "#/components/x-path-items/Orders"},
             "/orders/{oid}": {"get": {"operationId": "getOrder", "tags": ["orders"], "parameters": [docs.int_param("oid", "path")], "responses": copy.deepcopy(ok)}},
             "/status": {"get": {"operationId": "status", "responses": copy.deepcopy(ok)}},
         },
         components={
+            "requestBodies": {"UserBody": dict(copy.deepcopy(body), **{"x-internal": True})},
+            "parameters": {"AdminId": dict(docs.int_param("id", "path"), **{"x-scope": "admin"})},
             "x-path-items": {
                 "Orders": {
                     "post": {
@@ -116,12 +118,17 @@ SINGLE_FILTERS = [
     {"tag": "admin"},
     {"tag": ["orders", "users"]},
     {"tag_regex": "^a"},
+    {"tag_regex": "min$"},
+    {"tag_regex": "ser"},
     {"operation_id": "status"},
     {"operation_id": ["listUsers", "getOrder"]},
     {"operation_id_regex": "User$"},
     {"by": ["/deprecated", "==", True]},
     {"by": ["/tags/0", "==", "orders"]},
     {"by": ["/operationId", "!=", "status"]},
+    # pointers that cross a reference inside the operation (shared request body / parameter components)
+    {"by": ["/requestBody/x-internal", "==", True]},
+    {"by": ["/parameters/0/x-scope", "==", "admin"]},
     {"deprecated": True},
     {"method": "GET", "path_regex": "users"},
     {"tag": "users", "method": "POST"},
